@@ -247,13 +247,18 @@ class NxMixedGraph:
         :return: A latent variable DAG.
         """
         self.raise_on_counterfactual()
-        return _latent_dag(
+        rv = _latent_dag(
             di_edges=self.directed.edges(),
             bi_edges=self.undirected.edges(),
             prefix=prefix,
             start=start,
             tag=tag,
         )
+        # nodes without any edges are part of the graph, too
+        for node in self.nodes():
+            if node not in rv:
+                rv.add_node(node, **{DEFAULT_TAG if tag is None else tag: False})
+        return rv
 
     @classmethod
     def from_latent_variable_dag(cls, graph: nx.DiGraph, tag: str | None = None) -> NxMixedGraph:
@@ -264,6 +269,9 @@ class NxMixedGraph:
             raise ValueError(f"missing label {tag} in one or more nodes.")
 
         rv = cls()
+        for node, data in graph.nodes.items():
+            if not data[tag]:
+                rv.add_node(node)
         for node, data in graph.nodes.items():
             if data[tag]:
                 for a, b in itt.combinations(graph.successors(node), 2):
